@@ -8,6 +8,7 @@ import (
 
 	"github.com/polynetwork/poly/account"
 	"github.com/polynetwork/poly/common"
+	"github.com/polynetwork/poly/core/types"
 	"pgregory.net/rapid"
 
 	"verif/harness/ev"
@@ -110,6 +111,7 @@ func c42Node(ctx *ev.Ctx, c c42Case) {
 	}
 	ctx.Label("regime:" + c.Regime)
 	smallest := -1
+	var probeBlock *types.Block
 	for k := 0; k <= n; k++ {
 		b := ch.Build(nil, lworld.BlockOpt{Signers: append([]*account.Account{}, ch.Vals[:k]...)})
 		res, err := ch.Store.ExecuteBlock(b)
@@ -118,6 +120,7 @@ func c42Node(ctx *ev.Ctx, c c42Case) {
 		}
 		if err := ch.Store.SubmitBlock(b, res); err == nil {
 			smallest = k
+			probeBlock = b
 			break
 		}
 	}
@@ -128,6 +131,26 @@ func c42Node(ctx *ev.Ctx, c c42Case) {
 	if smallest != want {
 		msg := fmt.Sprintf("N=%d regime=%s: smallest number of distinct valid signers accepted by the node is %d, formula gives %d", n, c.Regime, smallest, want)
 		ctx.Failf("%s", msg)
+	}
+	// second probe: every validator is LISTED as bookkeeper, only the first k signatures are present - the
+	// threshold the node applies to the signatures themselves (a header naming enough validators is not a quorum)
+	ch.NoteCommitted(probeBlock)
+	smallestSigs := -1
+	for k := 0; k <= n; k++ {
+		b := ch.Build(nil, lworld.BlockOpt{Signers: append([]*account.Account{}, ch.Vals...)})
+		b.Header.SigData = b.Header.SigData[:k]
+		res, err := ch.Store.ExecuteBlock(b)
+		if err != nil {
+			ctx.Failf("N=%d k=%d (all listed): ExecuteBlock: %v", n, k, err)
+		}
+		if err := ch.Store.SubmitBlock(b, res); err == nil {
+			smallestSigs = k
+			break
+		}
+	}
+	if smallestSigs != want {
+		ctx.Failf("N=%d regime=%s: with all %d validators listed as bookkeepers, the smallest number of valid signatures accepted by the node is %d, formula gives %d",
+			n, c.Regime, n, smallestSigs, want)
 	}
 	if !legacy {
 		// the current rule is the one C42's intersection claim is about
